@@ -200,9 +200,11 @@ func RunC12(tier string) int {
 			scs, _ = enumerateScenarios(2, 2, []int{0, 2, 4, 5, 6}, time.Now().Add(120*time.Second))
 		}
 		var good []scenario
+		var goodC []*RefClosure
 		for _, s := range scs {
-			if Closure(s.world(), s.adds).Error == "" {
+			if c := Closure(s.world(), s.adds); c.Error == "" {
 				good = append(good, s)
+				goodC = append(goodC, c)
 			}
 		}
 		// worlds in which dependency analysis itself must fail (an escaping local
@@ -265,7 +267,7 @@ func RunC12(tier string) int {
 			args := make([]BuildArg, len(frontier))
 			pool.Map("build", len(frontier), func(i int) any {
 				f := frontier[i]
-				args[i] = BuildArg{World: good[f.sc].world(), Adds: good[f.sc].adds, Choices: f.choices, Trace: true, CrashScan: true, PostUse: true}
+				args[i] = BuildArg{World: good[f.sc].world(), Adds: good[f.sc].adds, Choices: f.choices, Trace: true, CrashScan: true, PostUse: true, Probes: probesFor(goodC[f.sc])}
 				return args[i]
 			}, func(i int, r core.Result) {
 				rep.Evaluations++
@@ -281,7 +283,7 @@ func RunC12(tier string) int {
 				if out.BadPick != "" {
 					core.Fatalf("replay divergence: %s (%s)", out.BadPick, desc)
 				}
-				for _, v := range judgeC12(good[f.sc], out) {
+				for _, v := range judgeC12(good[f.sc], goodC[f.sc], out) {
 					rep.Violation("sourcebundle.Builder/"+v[0], desc+" :: "+v[1], "build", args[i])
 				}
 				var pl []string
@@ -324,7 +326,7 @@ func RunC12(tier string) int {
 }
 
 // judgeC12 evaluates the builder part of the property on one run.
-func judgeC12(sc scenario, out BuildOut) (viol [][2]string) {
+func judgeC12(sc scenario, c *RefClosure, out BuildOut) (viol [][2]string) {
 	bad := func(sig, f string, a ...any) { viol = append(viol, [2]string{sig, fmt.Sprintf(f, a...)}) }
 	// which Add saw the first failing answer?
 	failAdd := -1
@@ -358,6 +360,11 @@ func judgeC12(sc scenario, out BuildOut) (viol [][2]string) {
 		}
 		if out.Bundle == nil {
 			bad("no-bundle-without-failure", "no bundle although nothing failed: %s %s", out.CloseErr, out.ClosePanic)
+		} else if c != nil {
+			// nothing failed (at most warnings were reported): the bundle must be complete
+			for _, v := range judgeC08(sc, c, out) {
+				bad("incomplete-after-warning-or-nothing/"+strings.TrimPrefix(v[0], "sourcebundle.Builder/"), "%s", v[1])
+			}
 		}
 	} else {
 		if failAdd >= len(out.Adds) {
